@@ -20,15 +20,17 @@ def resolve_dotted_path(dotted_path):
     function of the same name is part of the code under test and must not be its own oracle"""
     import importlib
     names = dotted_path.split(".")
-    module_name = names.pop(0)
-    found = importlib.import_module(module_name)
+    used = names.pop(0)
+    found = importlib.import_module(used)
     for name in names:
+        used += "." + name                       # the path walked so far, whether or not it had to be imported
         try:
             found = getattr(found, name)
         except AttributeError:
-            module_name += f".{name}"
-            importlib.import_module(module_name)
+            importlib.import_module(used)
             found = getattr(found, name)
+    if dotted_path.startswith("harness.pkgx."):
+        wmod.forget_deep()
     return found
 
 
@@ -168,7 +170,7 @@ def real_spec(cls, width=80):
 
 # ------------------------------------------------------------------------------------------------ lexer
 NEGATIVE = re.compile(r"^-\d+$|^-\d*\.\d+$")           # argparse._negative_number_matcher
-DOTTED_OK = re.compile(r"^harness\.wmod(\.\w+)*$")
+DOTTED_OK = re.compile(r"^harness\.(wmod|pkgx)(\.\w+)*$")
 
 
 def word_bits(tok):
